@@ -77,6 +77,10 @@ def run_cases(ctx, cases, official_compile=True, check_spec=True, check_model=Tr
         ctx.case(ident, nontrivial, sample={"text": c["text"][:400], "env": common.enc_env(c["envs"][0]) if c["envs"] else None,
                                             "impl_out": im["out"][:1]})
         ctx.count("compile:" + (im["compile"] if isinstance(im["compile"], str) else im["compile"]["e"]))
+        if m is not None and "fatal" in m:
+            ctx.tie_break("model-fatal", {"text": c["text"][:300], "model": m})
+            m = None
+            rec["model"] = None
         # --- advisory stages against the model
         if m is not None:
             gap = common.model_has_gap(m)
